@@ -249,25 +249,30 @@ where
 
                 if redelivery {
                     // Nothing to deliver.
-                } else if let Some(subscription_identifier) =
-                    publish
-                        .subscription_identifier
-                        .map(|subscription_identifier| {
-                            NonZero::from(subscription_identifier).get().value() as usize
-                        })
-                {
-                    if let Some((_, subscription)) =
-                        utils::linear_search_by_key(&session.subscriptions, subscription_identifier)
-                            .map(|pos| &mut session.subscriptions[pos])
-                    {
-                        // User may drop the receiving stream,
-                        // in that case remove it from the active subscriptions map.
-                        if (subscription.unbounded_send(RxPacket::Publish(publish))).is_err() {
-                            utils::linear_search_by_key(
-                                &session.subscriptions,
-                                subscription_identifier,
-                            )
-                            .and_then(|pos| session.subscriptions.remove(pos));
+                } else {
+                    // The message carries one subscription identifier per matching subscription,
+                    // the stream of each of them gets it.
+                    for subscription_identifier in publish.subscription_identifier.iter() {
+                        let subscription_identifier =
+                            NonZero::from(*subscription_identifier).get().value() as usize;
+
+                        if let Some((_, subscription)) = utils::linear_search_by_key(
+                            &session.subscriptions,
+                            subscription_identifier,
+                        )
+                        .map(|pos| &mut session.subscriptions[pos])
+                        {
+                            // User may drop the receiving stream,
+                            // in that case remove it from the active subscriptions map.
+                            if (subscription.unbounded_send(RxPacket::Publish(publish.clone())))
+                                .is_err()
+                            {
+                                utils::linear_search_by_key(
+                                    &session.subscriptions,
+                                    subscription_identifier,
+                                )
+                                .and_then(|pos| session.subscriptions.remove(pos));
+                            }
                         }
                     }
                 }
